@@ -82,7 +82,7 @@ class Lstm:
 
     def get_feature(self, time: int, batch: int = 0) -> Tensor:
         """Get input feature for provided time and batch"""
-        feature = self.op.ifm.clone(f"_feature#{batch}.{time}")
+        feature = self.op.ifm.clone(f"_feature#{batch}.{time}", set_unique=True)
         feature.set_all_shapes([self.n_batch if self.time_major else 1, self.n_feature])
         op = Operation(Op.SplitSliceRead, feature.name)
         op.add_input_tensor(self.op.ifm)
